@@ -381,20 +381,15 @@ def emit(allsites, errors, out):
     for fn, effs in sorted(CTOR_EFFECTS.items()):
         rows = []
         for what, gs in effs:
-            conj = []
-            fv = []
-            for pol, g in gs:
-                if "expr" in g:
-                    conj.append(g["expr"] if pol == "+" else "(negb %s)" % g["expr"])
-                    for v in g["free"]:
-                        if v not in fv:
-                            fv.append(v)
+            # keep the conjuncts that mention only the fresh pointer; a conjunct over other variables is dropped, which can only
+            # weaken the guard (the effect is then considered reachable more often)
             ptr = "n" if fn == "nsync_note_new" else "c"
-            others = [v for v in fv if v[0] != ptr]
+            conj = []
+            for pol, g in gs:
+                if "expr" in g and all(v[0] == ptr for v in g["free"]):
+                    conj.append(g["expr"] if pol == "+" else "(negb %s)" % g["expr"])
             body = " && ".join(conj) if conj else "true"
-            lam = "(fun (%s : Z) => %s)" % (ptr, body) if not others else None
-            if lam is None:
-                lam = "(fun (%s : Z) => true)" % ptr     # guard mentions other variables: treated as unguarded
+            lam = "(fun (%s : Z) => %s)" % (ptr, body)
             rows.append('  ("%s"%%string, %s)' % (what, lam))
         L.append("Definition effects_%s : list (string * (Z -> bool)) := [" % coq_ident(fn))
         L.append(";\n".join(rows) + "].")
